@@ -88,7 +88,7 @@ def variants():
         s = p.protocols[0].steps
         s[0], s[7] = s[7], s[0]
     mk("steps-swapped", swap_steps)
-    mk("step-added", lambda p: p.protocols[0].steps.append(("k", P("int32"))))
+    mk("step-added", lambda p: p.protocols[0].steps.append(("zz", P("int32"))))
     mk("step-removed", lambda p: p.protocols[0].steps.pop())
 
     def rename_proto(p):
